@@ -29,7 +29,13 @@ EXPLANATION = (
     "the sliced set reads slice-dependent cached quantities afterwards only if they "
     "were populated for every node before the change; (PRE) the cache entries that "
     "contract_nodes_pair accepts pre-computed all come from one simulator call. The "
-    "integer arithmetic itself (// d, MaxCounter) is not decided."
+    "integer arithmetic itself (// d, MaxCounter) is not decided. "
+    "Later rounds added: "
+    "(ARITH) the in-place deltas of remove_ind are evaluated symbolically for one "
+    "abstract step and equal the definitional differences; (MERGE) the annealing move "
+    "evaluator merges two leg tables by the tree's survival rule (symbolic case "
+    "analysis); (TRACK recompute) reset, refill and flag of each recomputed total run "
+    "under the same conditions. "
 )
 ASSUMPTIONS = (
     "a tree that carries sliced indices has been through remove_ind and is therefore tracked",
